@@ -1,11 +1,11 @@
 ------------------------------ MODULE DirSlots ------------------------------
 (* Design model behind C13: a go-nfsd directory is an array of fixed-size slots  *)
-(* (dir/dir.go); AddName takes the first free slot (or appends), RemName frees a   *)
+(* (dir/dir.go); AddName takes a free slot (any: the policy is DirCache.tla's), RemName frees a *)
 (* slot in place, RENAME is RemName(target) ; RemName(source) ; AddName(target),   *)
 (* nothing ever moves a live entry. A listing page scans from the slot its cookie   *)
 (* names, returns up to k live entries, and the cookie of an entry is the index of  *)
 (* the slot AFTER it. Checked exhaustively, with directory updates between pages:   *)
-(*   NoDup      no entry (name with the object it denotes) is returned twice        *)
+(*   NoDup      no entry (name with its object) present throughout is returned twice  *)
 (*   Complete   at end-of-directory every entry present throughout was returned      *)
 (*   Progress   every page returns an entry or end-of-directory; at most NSlots+1    *)
 (* Negative controls: Compact = TRUE (RemName moves the last entry into the hole:   *)
@@ -30,7 +30,8 @@ FirstFree(s) == CHOOSE i \in 1..NSlots : s[i] = Free /\ \A j \in 1..(i - 1) : s[
 Full(s) == \A i \in 1..NSlots : s[i] # Free
 LastUsed(s) == CHOOSE i \in 1..NSlots : s[i] # Free /\ \A j \in (i + 1)..NSlots : s[j] = Free
 
-AddTo(s, e) == [s EXCEPT ![FirstFree(s)] = e]
+FreeSlots(s) == {i \in 1..NSlots : s[i] = Free}
+AddAt(s, e, i) == [s EXCEPT ![i] = e]       \* any free slot: the code scans from a hint (DirCache.tla), the properties must not depend on the policy
 RemFrom(s, n) ==
   LET i == SlotOf(s, n) IN
   IF Compact /\ LastUsed(s) # i THEN [s EXCEPT ![i] = s[LastUsed(s)], ![LastUsed(s)] = Free]
@@ -46,14 +47,15 @@ Init == /\ slots \in {s \in [1..NSlots -> {Free} \cup {<<n, Obj0(n)>> : n \in Na
 
 Track(s2) == rd' = [rd EXCEPT !.through = @ \cap Ents(s2)]
 Add(n) == /\ nops < MaxOps /\ ~rd.eof /\ ~Has(slots, n) /\ ~Full(slots)
-          /\ slots' = AddTo(slots, <<n, nobj + 1>>) /\ nobj' = nobj + 1 /\ nops' = nops + 1 /\ Track(slots')
+          /\ \E i \in FreeSlots(slots) : slots' = AddAt(slots, <<n, nobj + 1>>, i)
+          /\ nobj' = nobj + 1 /\ nops' = nops + 1 /\ Track(slots')
 Rem(n) == /\ nops < MaxOps /\ ~rd.eof /\ Has(slots, n)
           /\ slots' = RemFrom(slots, n) /\ nops' = nops + 1 /\ UNCHANGED nobj /\ Track(slots')
 Ren(a, b) == /\ nops < MaxOps /\ ~rd.eof /\ a # b /\ Has(slots, a)
              /\ LET o == slots[SlotOf(slots, a)][2]
                     s1 == IF Has(slots, b) THEN RemFrom(slots, b) ELSE slots
                     s2 == RemFrom(s1, a)
-                IN slots' = AddTo(s2, <<b, o>>)
+                IN \E i \in FreeSlots(s2) : slots' = AddAt(s2, <<b, o>>, i)
              /\ nops' = nops + 1 /\ UNCHANGED nobj /\ Track(slots')
 
 (* one READDIR call with room for k entries *)
@@ -76,7 +78,9 @@ Page(k) ==
 Next == (\E n \in Names : Add(n) \/ Rem(n)) \/ (\E a, b \in Names : Ren(a, b)) \/ (\E k \in 1..2 : Page(k)) \/ (rd.eof /\ UNCHANGED vars)
 Spec == Init /\ [][Next]_vars
 
-NoDup == \A i, j \in 1..Len(rd.seen) : i # j => rd.seen[i] # rd.seen[j]
+(* an entry that left the directory and came back during the enumeration (RENAME away and back: it may land in a later slot) *)
+(* was not there throughout: it may be returned twice. The property speaks of the entries present throughout.               *)
+NoDup == \A i, j \in 1..Len(rd.seen) : (i # j /\ rd.seen[i] \in rd.through) => rd.seen[i] # rd.seen[j]
 Complete == rd.eof => rd.through \subseteq {rd.seen[i] : i \in 1..Len(rd.seen)}
 Progress == rd.pages <= NSlots + 1
 =============================================================================
